@@ -119,15 +119,16 @@ func readFile(name string) (string, bool) {
 
 // rotatedKept: every rotated file that still exists has its old content; removed ones are the oldest
 func (st *fsState) checkRotated(tag string, pruneAllowed bool, maxKeep int) {
-	removed := 0
+	// the removed files are the oldest ones: once a rotated file is still there, no younger one may be missing
+	kept := false
 	for i := 0; i < st.nRot; i++ {
 		c, ok := readFile(stamped(st.rotT[i]))
 		if ok {
 			verifAssert(c == st.rotC[i], tag+".rotated-file-content-kept")
-			verifAssert(removed == i, tag+".only-oldest-removed")
+			kept = true
 		} else {
 			verifAssert(pruneAllowed, tag+".no-removal-without-retention-limit")
-			removed++
+			verifAssert(!kept, tag+".only-oldest-removed")
 		}
 	}
 	if st.foreignA {
